@@ -2,7 +2,7 @@ SPECIFICATION MCSpec
 CONSTANTS
   EnvHonoured = TRUE
   MaxTicks = 5
-INVARIANTS TypeOK C19_Silent C19_Whitelist C19_NoLeak C19_InstanceId ConfigAsDocumented
+INVARIANTS TypeOK C19_Silent C19_NoCollector C19_Whitelist C19_NoLeak C19_InstanceId ConfigAsDocumented
 PROPERTIES C19_Step
 VIEW MCView
 CHECK_DEADLOCK FALSE
